@@ -2,6 +2,7 @@ import OpusProofs.EncSkelToc
 import OpusProofs.EncSkelParse
 import OpusProofs.EncSkelWf
 import OpusProofs.EncSkelRed
+import OpusProofs.EncSkelRedPayload
 /-
   Property C02 — "Every encoded packet is valid and decodes in lock-step with the encoder".
 
@@ -130,31 +131,34 @@ example : (encodeNative OpusProps.C02.exSt false 2880 4000 (OpusProps.C02.exOr 1
     (encodeNative OpusProps.C02.exSt false 2880 4000 (OpusProps.C02.exOr 158)).pkt.hdr = [255, 67, 3] := by
   decide +kernel
 
-/-- `redundancy_mirror`, SILK-only mode, at full strength (P1): for the encoder skeleton's own signalling
-    (`frRedSig` returned `redundancy = true`; the byte count it clamps at :2239-2240 comes from
-    `compute_redundancy_bytes`, `mid_rb_ge`) and C08's lock-step of the single flag bit (the decoder reads
-    `celt_to_silk` back at the same `ec_tell`, and `ec_tell` did not decrease), the decoder skeleton
-    `parseRedundancy` (opus_decoder.c:471-499), on the frame of `⌈tellB/8⌉ + rb` bytes the encoder emits,
-    recovers `(redundancy, celt_to_silk, redundancy_bytes) = (1, celt_to_silk, rb)` — with NO decoder-side
-    hypothesis.  In particular the corner "redundancy_bytes = 2, the flag bit cost no whole bit, ec_tell ≡ 0
+/-- `redundancy_mirror`, SILK-only mode, at full strength (P1).  Part 1: whenever the frame skeleton
+    `frameNative s fi e` — under its oracle contracts `frameOk` — signalled redundancy in SILK-only mode
+    (`frRedSig` returned `redundancy = true`) and returned a packet (`ret ≥ 1`, not the DTX return, range coder not
+    busted), then (a) the frame it emits has exactly `⌈tellB/8⌉ + redundancy_bytes` payload bytes
+    (`(frameNative s fi e).payload`, what reaches `opus_decode_frame` as `len`), and (b) given C08's lock-step of the
+    single flag bit (the decoder reads `celt_to_silk` back at the same `ec_tell`), the decoder skeleton
+    `parseRedundancy` (opus_decoder.c:471-499) run ON THAT PAYLOAD LENGTH recovers
+    `(redundancy, celt_to_silk, redundancy_bytes) = (1, celt_to_silk, rb)` and the SILK part's length — with NO
+    decoder-side hypothesis.  In particular the corner "redundancy_bytes = 2, the flag bit cost no whole bit, ec_tell ≡ 0
     (mod 8)", where the decoder's length test `ec_tell+17 ≤ 8·len` would miss what the encoder's budget test
-    `ec_tell+17 ≤ 8·(max_data_bytes−1)` admitted, is arithmetically impossible (`silk_gate_agrees`):
-    `redundancy_bytes = 2` forces `max_redundancy ≤ 2`, i.e. the budget is within 16 bits of the actual
-    length, and then the encoder's test implies the decoder's.  And without redundancy the SILK-only frame
-    ends with the coded bits (`len ≤ ⌈ec_tell/8⌉`), so the decoder reads none. -/
+    `ec_tell+17 ≤ 8·(max_data_bytes−1)` admitted, is arithmetically impossible (`silk_gate_agrees`; the byte count
+    the clamp of :2239-2240 starts from is ≥ 13, `mid_rb_ge`).  Part 2: without redundancy the SILK-only frame ends
+    with the coded bits (`len ≤ ⌈ec_tell/8⌉`), so the decoder reads none. -/
 theorem redundancy_mirror_silk :
     (∀ (s : St) (fi : FrameIn) (e : FrameOr) (x : Mid) (o : DecSkel.Oracle) (r : DecSkel.Run) (c2s : Bool),
       1 ≤ s.streamChannels ∧ s.streamChannels ≤ 2 → frSilk fi (frPre s fi) e = .cont x →
-      x.st.mode = MODE_SILK_ONLY → (frRedSig fi x e).1 = true → e.tellA ≤ e.tellB →
+      x.st.mode = MODE_SILK_ONLY → (frRedSig fi x e).1 = true → frameOk s fi e = true →
+      (frameNative s fi e).dtx = false → 1 ≤ (frameNative s fi e).ret → e.tellE ≤ (fi.maxDataBytes - 1) * 8 →
       o.bit r.k 1 e.tellA = (b2i c2s, e.tellB) →
-      (DecSkel.parseRedundancy o DecSkel.MODE_SILK ((e.tellB + 7) / 8 + (frRedSig fi x e).2.1) e.tellA r).1 =
+      (frameNative s fi e).payload = (e.tellB + 7) / 8 + (frRedSig fi x e).2.1 ∧
+      (DecSkel.parseRedundancy o DecSkel.MODE_SILK (frameNative s fi e).payload e.tellA r).1 =
         { redundancy := 1, celt_to_silk := b2i c2s, bytes := (frRedSig fi x e).2.1, len := (e.tellB + 7) / 8,
           tell := e.tellB }) ∧
     (∀ (o : DecSkel.Oracle) (r : DecSkel.Run) (len tellA : Int), len ≤ (tellA + 7) / 8 →
       (DecSkel.parseRedundancy o DecSkel.MODE_SILK len tellA r).1 =
         { redundancy := 0, celt_to_silk := 0, bytes := 0, len := len, tell := tellA }) := by
   refine ⟨?_, fun o r len tellA h => redundancy_mirror_silk_none o r len tellA h⟩
-  intro s fi e x o r c2s hch hx hmode hred hmono h1
+  intro s fi e x o r c2s hch hx hmode hred hok hdtx hret hbust h1
   have hxr : x.redundancy = true := by
     unfold frRedSig at hred
     dsimp only at hred
@@ -162,16 +166,50 @@ theorem redundancy_mirror_silk :
     · rename_i hb; unfold readsB at hb; simp only [Bool.and_eq_true] at hb; exact hb.2
     · cases hred
   have h13 := mid_rb_ge s fi e x hch hx hxr
-  exact redundancy_mirror_silk_full fi x e o r c2s hmode (by omega) hred hmono h1
+  have hmono := silk_red_mono s fi e x hx hmode hred hok
+  have hpay := silk_red_payload s fi e x hx hmode hred hok hdtx hret hbust
+  rw [hpay]
+  exact ⟨rfl, redundancy_mirror_silk_full fi x e o r c2s hmode (by omega) hred hmono h1⟩
 
-/- FULL STATEMENT (design §7.C02 `redundancy_mirror`, hybrid mode): as above without decoder-side
-   hypotheses.  Proved below (`redundancy_mirror_hybrid_partial`) under C08's lock-step of the three symbols
-   plus exactly ONE extra contract, on `celt_encode_with_ec` in hybrid VBR mode (celt_encoder.c:2303-2318,
-   `min_allowed`): the CELT part keeps the packet long enough for the decoder's gate and holds all coded
-   bits, i.e. `ec_tell_before + 37 ≤ 8·(ret + redundancy_bytes)` and `ec_tell ≤ 8·ret`.  In hybrid CBR no
-   contract is needed (`hybrid_cbr_gate`: CELT returns its whole budget, so the frame has
-   `max_data_bytes − 1` bytes and the encoder's test is the decoder's). -/
-theorem redundancy_mirror_hybrid_partial (o : DecSkel.Oracle) (r : DecSkel.Run) (len tellA tell1 tellB tellU rb : Int)
+/-- `redundancy_mirror`, hybrid mode with VBR off.  Whenever the frame skeleton `frameNative s fi e` — under its oracle
+    contracts `frameOk`, which include "with VBR off the main CELT call returns exactly its budget" (CBR with
+    OPUS_BITRATE_MAX, opus_encoder.c:2176/:2327; monitored on every recorded call) — signalled redundancy in hybrid mode
+    and returned a packet, then (a) the frame it emits has exactly `max_data_bytes − 1` payload bytes, so the
+    decoder's gate `ec_tell+37 ≤ 8·len` IS the encoder's gate of :2220, and (b) given C08's lock-step of the three
+    symbols (`bit_logp(1,12)` at `tellA`, `bit_logp(celt_to_silk,1)` ending at `tellB`, `uint(rb−2,256)` ending at
+    `tellD`: the decoder reads them back at the same `ec_tell`s), `parseRedundancy` run ON THAT PAYLOAD LENGTH recovers
+    `(1, celt_to_silk, redundancy_bytes)` and leaves `max_data_bytes − 1 − rb` bytes for the main frame — with NO
+    decoder-side hypothesis (the decoder's sanity test `ec_tell ≤ 8·(len−rb)` follows from the encoder's `tellD ≤
+    8·nb_compr_bytes`, which made the main CELT call run). -/
+theorem redundancy_mirror_hybrid_cbr (s : St) (fi : FrameIn) (e : FrameOr) (x : Mid) (o : DecSkel.Oracle)
+    (r : DecSkel.Run) (c2s : Bool) (tell1 : Int)
+    (hx : frSilk fi (frPre s fi) e = .cont x) (hmode : x.st.mode = MODE_HYBRID) (hcbr : x.st.useVbr = 0)
+    (hred : (frRedSig fi x e).1 = true) (hok : frameOk s fi e = true)
+    (hdtx : (frameNative s fi e).dtx = false) (hret : 1 ≤ (frameNative s fi e).ret)
+    (hbust : e.tellE ≤ (fi.maxDataBytes - 1) * 8)
+    (h1 : o.bit r.k 12 e.tellA = (1, tell1))
+    (h2 : o.bit r.tick.k 1 tell1 = (b2i c2s, e.tellB))
+    (h3 : o.uint r.tick.tick.k 256 e.tellB = ((frRedSig fi x e).2.1 - 2, e.tellD)) :
+    (frameNative s fi e).payload = fi.maxDataBytes - 1 ∧
+    (DecSkel.parseRedundancy o DecSkel.MODE_HYBRID (frameNative s fi e).payload e.tellA r).1 =
+      { redundancy := 1, celt_to_silk := b2i c2s, bytes := (frRedSig fi x e).2.1,
+        len := fi.maxDataBytes - 1 - (frRedSig fi x e).2.1, tell := e.tellD } := by
+  obtain ⟨hpay, hgate, -, -, htd⟩ := hybrid_cbr_payload s fi e x hx hmode hcbr hred hok hdtx hret hbust
+  refine ⟨hpay, ?_⟩
+  rw [hpay]
+  have h := redundancy_mirror_hybrid o r (fi.maxDataBytes - 1) e.tellA tell1 e.tellB e.tellD (frRedSig fi x e).2.1 true c2s
+    hgate (by simpa [b2i] using h1) (fun _ => h2) (fun _ => h3) (fun _ => by omega)
+  simpa [b2i] using h
+
+/- NOT PROVED (design §7.C02 `redundancy_mirror`, hybrid mode with VBR on): there the length of the frame depends on
+   what `celt_encode_with_ec` returns in VBR mode; the decoder's gate needs CELT's `min_allowed` (celt_encoder.c:2303-2318:
+   `ec_tell_before + 37 ≤ 8·(ret + redundancy_bytes)`) and its sanity test `ec_tell ≤ 8·ret`, neither of which is a contract
+   of the skeleton.  What IS proved for that case is only the decoder side: -/
+
+/-- Decoder side only (NO encoder in this statement): what `parseRedundancy` computes in hybrid mode when its own gate
+    passes on a frame of `len` bytes and the three symbols it reads are `red`, `c2s`, `rb − 2`.  Used by
+    `redundancy_mirror_hybrid_cbr`; for hybrid VBR the hypotheses `hgate` / `hsane` are not derived from the encoder. -/
+theorem hybrid_redundancy_parse (o : DecSkel.Oracle) (r : DecSkel.Run) (len tellA tell1 tellB tellU rb : Int)
     (red c2s : Bool) (hgate : tellA + 17 + 20 ≤ 8 * len) (h1 : o.bit r.k 12 tellA = (b2i red, tell1))
     (h2 : red = true → o.bit r.tick.k 1 tell1 = (b2i c2s, tellB))
     (h3 : red = true → o.uint r.tick.tick.k 256 tellB = (rb - 2, tellU))
@@ -180,6 +218,58 @@ theorem redundancy_mirror_hybrid_partial (o : DecSkel.Oracle) (r : DecSkel.Run) 
       { redundancy := b2i red, celt_to_silk := if red then b2i c2s else 0, bytes := if red then rb else 0,
         len := if red then len - rb else len, tell := if red then tellU else tell1 } :=
   redundancy_mirror_hybrid o r len tellA tell1 tellB tellU rb red c2s hgate h1 h2 h3 hsane
+
+/-! non-vacuity of `redundancy_mirror_silk` part 1: 16 kHz mono, SILK-only after a CELT frame (`celt_to_silk`), 20 ms,
+    23 kb/s, 200 bytes of space; SILK ends at bit 300, the flag costs one bit → 38 coded bytes + 30 redundancy bytes -/
+def exSilkSt : St :=
+  { fs := 16000, channels := 1, application := 2048, useVbr := 1, userBitrate := 23000, forceChannels := -1000,
+    signalType := -1000, userBandwidth := -1000, maxBandwidth := 1103, userForcedMode := -1000, lfe := 0, useDtx := 0,
+    fecConfig := 0, variableDuration := 5000, complexity := 9, lossPerc := 0, useInBandFEC := 0, energyMasking := 0,
+    streamChannels := 1, mode := 1000, prevMode := 1002, prevChannels := 1, prevFramesize := 320, bandwidth := 1103,
+    autoBandwidth := 1103, silkBwSwitch := 0, first := 0, voiceRatio := -1, detectedBandwidth := 0, nbNoActivity := 0,
+    nonfinalFrame := 0, bitrateBps := 23000, toMono := 0, lbrrCoded := 0, allowBwSwitch := 0, inWBmode := 0,
+    opusCanSwitch := 0, silkUseDtx := 0 }
+def exSilkFi : FrameIn :=
+  { frameSize := 320, maxDataBytes := 200, isSilence := 0, redundancy := true, celtToSilk := true, prefill := 1,
+    equivRate := 23000, toCelt := false }
+def exSilkOr : FrameOr :=
+  { aValid := 1, activity := 1, silkBitRateIn := 0, silkRet := 0, nBytes := 38, isr := 16000, switchReady := 0, allowBw := 0,
+    inWB := 1, tellA := 300, tellB := 301, tellC := 301, tellD := 301, tellE := 301, stripTo := 38, celtRed1 := 30,
+    celtMain := 0, celtRed2 := 0, used1 := 0, used2 := 0 }
+example : (match frSilk exSilkFi (frPre exSilkSt exSilkFi) exSilkOr with
+      | .cont x => decide (x.st.mode = MODE_SILK_ONLY ∧ frRedSig exSilkFi x exSilkOr = (true, 30, x.st))
+      | .done _ => false) = true ∧
+    frameOk exSilkSt exSilkFi exSilkOr = true ∧
+    (frameNative exSilkSt exSilkFi exSilkOr).dtx = false ∧ (frameNative exSilkSt exSilkFi exSilkOr).ret = 69 ∧
+    (frameNative exSilkSt exSilkFi exSilkOr).payload = (301 + 7) / 8 + 30 ∧
+    exSilkOr.tellE ≤ (exSilkFi.maxDataBytes - 1) * 8 := by
+  decide +kernel
+
+/-! non-vacuity of `redundancy_mirror_hybrid_cbr`: 48 kHz mono hybrid FB, 64 kb/s CBR, 20 ms, 160 bytes, last hybrid frame
+    before CELT-only (`to_celt`): SILK ends at bit 200, the three symbols end at bit 221, 36 redundancy bytes, CELT
+    returns its whole budget 159 − 36 = 123 → payload 159 = max_data_bytes − 1 -/
+def exHybSt : St :=
+  { fs := 48000, channels := 1, application := 2049, useVbr := 0, userBitrate := 64000, forceChannels := -1000,
+    signalType := -1000, userBandwidth := -1000, maxBandwidth := 1105, userForcedMode := -1000, lfe := 0, useDtx := 0,
+    fecConfig := 0, variableDuration := 5000, complexity := 9, lossPerc := 0, useInBandFEC := 0, energyMasking := 0,
+    streamChannels := 1, mode := 1001, prevMode := 1001, prevChannels := 1, prevFramesize := 960, bandwidth := 1105,
+    autoBandwidth := 1105, silkBwSwitch := 0, first := 0, voiceRatio := -1, detectedBandwidth := 0, nbNoActivity := 0,
+    nonfinalFrame := 0, bitrateBps := 64000, toMono := 0, lbrrCoded := 0, allowBwSwitch := 0, inWBmode := 0,
+    opusCanSwitch := 0, silkUseDtx := 0 }
+def exHybFi : FrameIn :=
+  { frameSize := 960, maxDataBytes := 160, isSilence := 0, redundancy := true, celtToSilk := false, prefill := 0,
+    equivRate := 64000, toCelt := true }
+def exHybOr : FrameOr :=
+  { aValid := 1, activity := 1, silkBitRateIn := 0, silkRet := 0, nBytes := 25, isr := 16000, switchReady := 0, allowBw := 0,
+    inWB := 1, tellA := 200, tellB := 213, tellC := 0, tellD := 221, tellE := 1200, stripTo := 0, celtRed1 := 0,
+    celtMain := 123, celtRed2 := 36, used1 := 27, used2 := 100 }
+example : (match frSilk exHybFi (frPre exHybSt exHybFi) exHybOr with
+      | .cont x => decide (x.st.mode = MODE_HYBRID ∧ x.st.useVbr = 0 ∧ frRedSig exHybFi x exHybOr = (true, 36, x.st))
+      | .done _ => false) = true ∧
+    frameOk exHybSt exHybFi exHybOr = true ∧
+    (frameNative exHybSt exHybFi exHybOr).dtx = false ∧ (frameNative exHybSt exHybFi exHybOr).ret = 160 ∧
+    (frameNative exHybSt exHybFi exHybOr).payload = 159 ∧ exHybOr.tellE ≤ (exHybFi.maxDataBytes - 1) * 8 := by
+  decide +kernel
 
 /-- the corner, concretely: budget 11 bytes, SILK part ends at bit 64 (≡ 0 mod 8), flag costs 0 bits:
     `max_redundancy = 10 − 8 = 2 ≥ …` cannot happen together with the encoder's gate `64+17 ≤ 80`;
